@@ -2,6 +2,7 @@ package main
 
 import (
 	"bufio"
+	"encoding/base64"
 	"flag"
 	"fmt"
 	"os"
@@ -225,3 +226,7 @@ func main() {
 	sort.Strings(ks)
 	fmt.Printf("HARNESS stream=%s seed=%d ops=%d kinds=%s\n", *stream, *seed, t.nOps, strings.Join(ks, ","))
 }
+
+func itoa(i int) string { return strconv.Itoa(i) }
+
+func stdB64(bz []byte) string { return base64.StdEncoding.EncodeToString(bz) }
